@@ -986,6 +986,48 @@ class PureInterp:
                     continue
         return False
 
+    def _signature(self, f):
+        """inspect.signature of a function / class of the package (from its definition), or of a recording hook standing for a library or plug-in callable."""
+        import inspect
+        P_ = inspect.Parameter
+        if isinstance(f, FuncRef) and f.name in self.hooks:
+            return inspect.signature(self.hooks[f.name])
+        if isinstance(f, ClassInfo):
+            init = self.index.method(f, "__init__")
+            if init is None:
+                ps = []
+                for name_, _ann, value in f.fields:
+                    is_init = not (isinstance(value, ast.Call) and any(k.arg == "init" and isinstance(k.value, ast.Constant) and k.value.value is False for k in value.keywords))
+                    if is_init:
+                        has_d = isinstance(value, ast.Call) and any(k.arg in ("default", "factory") for k in value.keywords) or (value is not None and not isinstance(value, ast.Call))
+                        ps.append(P_(name_.lstrip("_"), P_.POSITIONAL_OR_KEYWORD, default=None if has_d else P_.empty))
+                return inspect.Signature(ps, __validate_parameters__=False)
+            f = init
+            skip_self = True
+        else:
+            skip_self = isinstance(f, FuncInfo) and f.cls is not None and "staticmethod" not in f.decorator_names()
+        if isinstance(f, tuple) and f and f[0] in ("bound",):
+            f, skip_self = f[1], True
+        if not isinstance(f, FuncInfo):
+            if callable(f) and not isinstance(f, (Obj, FuncRef)):
+                return inspect.signature(f)
+            raise Unsupported("inspect.signature of this object")
+        a = f.node.args
+        ps = [P_(x.arg, P_.POSITIONAL_ONLY) for x in a.posonlyargs]
+        nd = len(a.defaults)
+        pos = a.args
+        for i, x in enumerate(pos):
+            ps.append(P_(x.arg, P_.POSITIONAL_OR_KEYWORD, default=None if i >= len(pos) - nd else P_.empty))
+        if a.vararg:
+            ps.append(P_(a.vararg.arg, P_.VAR_POSITIONAL))
+        for x, d in zip(a.kwonlyargs, a.kw_defaults):
+            ps.append(P_(x.arg, P_.KEYWORD_ONLY, default=P_.empty if d is None else None))
+        if a.kwarg:
+            ps.append(P_(a.kwarg.arg, P_.VAR_KEYWORD))
+        if skip_self and ps:
+            ps = ps[1:]
+        return inspect.Signature(ps, __validate_parameters__=False)
+
     def _exc_instance(self, r):
         """The exception object for a failure injected by a hook (Raised(kind, detail)): an instance of the repository's class of that name when there is exactly one
         (so that .message, .args and the class's own methods are there), else a plain stand-in."""
@@ -1242,6 +1284,10 @@ class PureInterp:
         if isinstance(o, tuple) and hasattr(o, "_fields") and n.attr in ("_replace", "_asdict", "_fields"):
             return getattr(o, n.attr)
         if type(o).__name__ in ("Element", "Match") and type(o).__module__ in ("xml.etree.ElementTree", "re") and not callable(getattr(o, n.attr, None)) and hasattr(o, n.attr):
+            return getattr(o, n.attr)
+        if type(o).__module__ == "inspect" and type(o).__name__ in ("Signature", "Parameter") and n.attr in ("parameters", "name", "default", "kind", "annotation", "return_annotation", "empty"):
+            return dict(o.parameters) if n.attr == "parameters" else getattr(o, n.attr)
+        if type(o).__module__ == "urllib.parse" and hasattr(type(o), "_fields") and n.attr in ("hostname", "port", "username", "password"):
             return getattr(o, n.attr)
         return ("method", o, n.attr)
 
@@ -1541,6 +1587,8 @@ class PureInterp:
             name = f.name
             if name in self.hooks:
                 return self._hook(self.hooks[name], args, kwargs)
+            if name == "inspect.signature" and args:
+                return self._signature(args[0])
             if name in ("concurrent.futures.ThreadPoolExecutor", "concurrent.futures.ProcessPoolExecutor", "concurrent.futures.thread.ThreadPoolExecutor",
                         "concurrent.futures.process.ProcessPoolExecutor"):
                 return ModelExecutor(self, kwargs.get("max_workers", args[0] if args else None))
